@@ -1,9 +1,11 @@
 #!/bin/sh
-# Run once after a fresh restore, offline.  Verus needs no build; the Kani target directory is
-# warmed by the first Kani unit (see tools/kani_run.py).  Nothing is fetched.
+# Run once after a fresh restore, offline.  Verus needs no build; the compiled dependencies of
+# the crate for the Kani toolchain are built once into .cache/kani-deps (tools/kani_run.py).
+# Nothing is fetched.
 set -e
 cd "$(dirname "$0")"
 mkdir -p gen evidence replays .cache
 command -v verus >/dev/null || { echo "verus not on PATH"; exit 1; }
 python3 -c "import sys; sys.path.insert(0,'tools'); import assemble, verus_run, check" 
+python3 -c "import sys; sys.path.insert(0,'tools'); import kani_run; kani_run.ensure_deps_cache()"
 echo setup ok
